@@ -1,39 +1,26 @@
-(* C01: the current-code view of tuples (Model.prune, known finding arith-member-in-tuple) is the identity
-   on models whose tuple members are all parameters or constants. *)
-From Coq Require Import List String Bool Arith.
-From Coq Require Import Floats.PrimFloat.
-From PAFC01 Require Import ModelTree Proofs Model.
+(* C01: tuple members of EVERY kind are evaluated (repaired by /repo 7acf0fe: TuplePrior.value_for_arguments
+   used to keep only Prior | float members; the legacy view is kept as history in Witness.legacy_prune). *)
+From Coq Require Import List String Bool Arith Permutation.
+From PAFC01 Require Import ModelTree Proofs Proofs2.
 Import ListNotations.
 Local Open Scope string_scope.
 Local Open Scope list_scope.
 
-Fixpoint simple_members (n : fnode) : bool :=
-  match n with
-  | NTuple ms =>
-      (fix go (ms : list (string * (nat * fnode))) : bool :=
-         match ms with
-         | [] => true
-         | (_, (_, c)) :: ms' => match c with NPrior _ | NConst _ => go ms' | _ => false end
-         end) ms
-  | NModel _ _ attrs | NColl attrs =>
-      (fix go (a : list (string * fnode)) : bool :=
-         match a with [] => true | (_, c) :: a' => simple_members c && go a' end) attrs
-  | _ => true
-  end.
+Section P5.
+  Variable V : Type.
+  Variable bin : binop -> V -> V -> V.
 
-Lemma prune_id (n : fnode) : simple_members n = true -> prune n = n.
-Proof.
-  induction n as [q|c|ms IH|o ln rn l r IHl IHr|cls ctor attrs IH|attrs IH] using (node_ind' float); intro H;
-    try reflexivity.
-  - cbn [prune]. f_equal. cbn [simple_members] in H. clear IH.
-    induction ms as [|[k [i c]] ms IHms]; [reflexivity|].
-    destruct c; try discriminate; rewrite (IHms H); reflexivity.
-  - cbn [prune]. f_equal. cbn [simple_members] in H.
-    induction attrs as [|[k c] attrs IHa]; [reflexivity|].
-    apply andb_true_iff in H. destruct H as [Hc Hr]. inversion IH as [|? ? IHc IHrest]; subst. simpl in IHc.
-    rewrite (IHc Hc), (IHa IHrest Hr). reflexivity.
-  - cbn [prune]. f_equal. cbn [simple_members] in H.
-    induction attrs as [|[k c] attrs IHa]; [reflexivity|].
-    apply andb_true_iff in H. destruct H as [Hc Hr]. inversion IH as [|? ? IHc IHrest]; subst. simpl in IHc.
-    rewrite (IHc Hc), (IHa IHrest Hr). reflexivity.
-Qed.
+  (* a member defined by arithmetic on parameters / constants: the built tuple holds, at the member's
+     position, the value of the expression under the same assignment; the arity is the number of members *)
+  Lemma tuple_member_derived (args : nat -> option V) (ms : list (string * (nat * node V))) (nm : string)
+      (i : nat) (c : node V) (v : V) :
+    Permutation (map (fun m => fst (snd m)) ms) (seq 0 (List.length ms)) ->
+    In (nm, (i, c)) ms -> eval V bin args c = Some v ->
+    exists vs, inst V bin args (NTuple ms) = ITup vs /\ List.length vs = List.length ms /\
+               nth i vs IMissing = IV v.
+  Proof.
+    intros P Hin E.
+    destruct (tuple_in_position_order V bin args ms nm i c P Hin) as [vs [E1 [E2 E3]]].
+    exists vs. split; [exact E1|]. split; [exact E2|]. rewrite E3. apply inst_eval. exact E.
+  Qed.
+End P5.
